@@ -122,6 +122,8 @@ class Sim:
         # object-info store; answers that depend on that store are already left out of the battery
         self.prefs = {"automatic_soa": bool(swarm.get("soa", False)),
                       "ignored_resources": ["*.pyc", "*~", ".ropeproject", "generated"]}
+        if swarm.get("ignore_syntax_errors"):
+            self.prefs["ignore_syntax_errors"] = True
         if self.has_ext:
             self.prefs["python_path"] = [self.ext]
             os.utime(os.path.join(self.ext, "extlib.py"), ns=(self.clock.ns, self.clock.ns))
@@ -866,6 +868,7 @@ class CoherenceEngine(Engine):
             "burst": rng.random() < 0.4,
             "soa": rng.random() < 0.3,
             "ext": rng.random() < 0.3,
+            "ignore_syntax_errors": rng.random() < 0.2,
         }
 
     def gen_step(self, rng, sim, swarm):
